@@ -30,6 +30,7 @@ REFUTED = [
     "C08_complex_old_refuted (pre-repair FloatData.format_type: 1+2j accepted and stored as 1.0; repaired by fixes/C08-complex-imag-dropped.patch)",
     "C08_refmap_old_refuted (pre-repair _validate_key_value: keys 1 and 2^32+1 share a row key in the '<u4' column, label of 1 replaced; repaired by fixes/C08-value-map-key-wrap.patch)",
     "C08_text_too_long_old_refuted (pre-repair TextData.values setter accepts more entries than the geometry has; repaired by fixes/C08-text-too-long.patch)",
+    "C08_text_bytes_old_refuted (pre-repair TextData.values stores an 'S' array that is not UTF-8 and the entity can no longer be read; repaired by fixes/C08-text-invalid-utf8-bytes.patch)",
     "C08_blob_named_Data_refuted (FilenameData whose file is called 'Data' reads back None: open finding file-named-Data)",
 ]
 PARTIAL = [
@@ -69,8 +70,8 @@ LEVEL_TEXT = (
     "every fractional, infinite or out-of-range value and every array longer than the geometry is refused; booleans are "
     "stored as int8 0/1 and anything else is refused; object/str/complex/bool-to-float inputs are refused; text round-trips "
     "under the codec law, which is itself proved for the model's RFC 3629 codec; ReferenceValueMap keeps key 0 = 'Unknown' "
-    "over every constructor/__setitem__ sequence and survives the file with all labels.  The four pre-repair defects are "
-    "proved as refutations of the old transcription and repaired by fixes/C08-*.patch; a file called 'Data' is an open "
+    "over every constructor/__setitem__ sequence and survives the file with all labels.  The five pre-repair defects are "
+    "proved as refutations of the old transcription (tied to the unpatched tree by C08_MODEL_VER=Old) and repaired by fixes/C08-*.patch; a file called 'Data' is an open "
     "finding.  Tie: correspondence of model and code on generated arrays of every numeric dtype, strings of all planes, "
     "maps and blobs (API value live, raw dataset, API value after re-open)."
 )
@@ -189,10 +190,10 @@ def representable(cls, x):
     """can the element (python int/bool/float; complex as (re, im)) be stored in the class without change? (NaN = gap: yes)"""
     if isinstance(x, tuple):
         re, im = x
-        if im != 0 and not (im != im):
-            return False
         if im != im or re != re:
-            return True  # nan -> gap
+            return True  # np.isnan holds of a complex number when either part is NaN: a gap
+        if im != 0:
+            return False
         return representable(cls, re)
     if isinstance(x, bool):
         return True
@@ -1142,11 +1143,6 @@ def _oracle_blob(case, obs):
     elif obs["rawblob"] != case["bytes"]:
         fails.append({"key": "raw-dataset-differs", "what": "opaque dataset differs from the blob"})
     return fails
-
-
-def _json_ok(v):
-    """values JSON represents exactly (str keys, no floats that JSON text cannot carry are all fine in Python's json)"""
-    return True
 
 
 def _oracle_json(case, obs):
